@@ -936,11 +936,21 @@ F("weight:ndarray", "composition",
   _weight_array)
 
 
+def _stack_dtypes(p):
+    """Data type of every list element: the images of one list need not be typed alike (np.stack promotes).
+    ``dts[k-1]`` = None keeps the type of the first image.  (Replay files written before carry no 'dts'.)"""
+    sp = p["a"]
+    dts = list(p.get("dts") or [])
+    return [sp["dtype"]] + [(dts[k - 1] if k - 1 < len(dts) and dts[k - 1] is not None else sp["dtype"])
+                            for k in range(1, p["n"])]
+
+
 def _stack(p):
     sp = p["a"]
     imgs = []
+    dtypes = _stack_dtypes(p)
     for k in range(p["n"]):
-        s = dict(other(sp, 11 * k), series=False, nt=0, t0=sp["t0"] + k * max(1, sp["dt"]))
+        s = dict(other(sp, 11 * k, dtypes[k]), series=False, nt=0, t0=sp["t0"] + k * max(1, sp["dt"]))
         if k == 0 and p["first_series"]:
             s = dict(s, series=True, nt=2, dt=1, t0=sp["t0"] - 2)
             if s["t0"] < 0:
@@ -949,12 +959,18 @@ def _stack(p):
         imgs.append(mk(s))
     owned = {f"images[{k}]": im for k, im in enumerate(imgs)}
     owned["images"] = imgs
+    mixed = len(set(dtypes)) > 1
     return Call(owned, lambda: darsia.stack(imgs), REJ,
-                labels=cls_label(imgs[0]) + (("neutral:single-image-list",) if p["n"] == 1 else ()))
+                labels=cls_label(imgs[0]) + (("neutral:single-image-list",) if p["n"] == 1 else ())
+                + (("mixed-dtypes",) if mixed else ("one-dtype",) if p["n"] > 1 else ())
+                + (("mixed-dtypes:narrower-first",) if mixed and any(
+                    np.promote_types(dtypes[0], d) != np.dtype(dtypes[0]) for d in dtypes[1:]) else ()))
 
 
 F("stack", "composition",
-  fd(a=_specs(dtypes=ALL_DTYPES, series=(False,)), n=st.integers(1, 4), first_series=st.booleans()),
+  fd(a=_specs(dtypes=ALL_DTYPES, series=(False,)), n=st.integers(1, 4), first_series=st.booleans(),
+     # every further image: the type of the first one (None) or any other type
+     dts=st.lists(st.sampled_from((None, None, None) + ALL_DTYPES), min_size=3, max_size=3)),
   _stack)
 
 
@@ -1506,32 +1522,119 @@ def _emd_matrix(p):
 F("EMD.distance_matrix", "measures", G_EMD, _emd_matrix, weight=2)
 
 
+# The variational solvers (Newton, Bregman) take their whole configuration from a caller-owned, nested
+# options dictionary ("linear_solver_options" and "amg_options" are dictionaries of their own) and an
+# optional caller-owned weight image.  Every documented way of configuring the linear solver is drawn
+# (the AMG-based solvers with and without user-defined AMG options in the pyamg interface), and weights of
+# every size: ordinary, spanning orders of magnitude, and entries that need the documented
+# "regularization" (below a user-defined regularization, denormal-small, exactly zero).
+W1_AMG = [None, {"max_coarse": 50}, {"max_levels": 2, "max_coarse": 4},
+          {"strength": "classical", "presmoother": ("gauss_seidel", {"sweep": "symmetric"})}]
+# (linear_solver, formulation, index into W1_AMG); "full" is documented for the direct (and ksp) solver only
+W1_SOLVERS = [("default", "default", 0), ("direct", "pressure", 0), ("direct", "full", 0),
+              ("direct", "flux_reduced", 1), ("amg", "pressure", 0), ("amg", "pressure", 1),
+              ("amg", "flux_reduced", 2), ("amg", "pressure", 3), ("cg", "pressure", 1),
+              ("cg", "flux_reduced", 0), ("cg", "pressure", 2), ("cg", "flux_reduced", 3)]
+W1_WEIGHTS = ["none", "ordinary", "wide-range", "small", "tiny", "zero"]
+W1_REG = [None, 1e-3]
+# one choice from the full product, so that a quick run meets every solver with every kind of weight
+W1_CFG = [[i, wk, r] for i in range(len(W1_SOLVERS)) for wk in W1_WEIGHTS for r in (0, 1)]
+
+
+def _w1_weight(p, wk):
+    """Caller-owned weight image on the grid of the masses; values k/4 in [0.25, 2], then by kind of weight
+    a third of the cells much smaller: 2**-10 .. 2**-4 ('wide-range'), 1e-4 ('small': below a user-defined
+    regularization of 1e-3), 1e-20 ('tiny': below the default regularization) or exactly 0."""
+    sp = p["a"]
+    wsp = dict(sp, series=False, nt=0, time="none", pseed=sp["pseed"] + 9)
+    w = mk(wsp, positive=True)
+    if wk != "ordinary":
+        rng = np.random.default_rng(sp["pseed"] + 10)
+        low = rng.random(w.img.shape) < 0.35
+        low.flat[int(rng.integers(0, low.size))] = True
+        if wk == "wide-range":
+            w.img[low] = 2.0 ** -rng.integers(4, 11, size=int(low.sum()))
+        else:
+            w.img[low] = {"small": 1e-4, "tiny": 1e-20, "zero": 0.0}[wk]
+    return w
+
+
+def _w1_options(p):
+    """-> (options dictionary, labels).  Replay files written before the configuration was drawn carry
+    only 'pre' (weighted or not)."""
+    opts = {"num_iter": 2, "verbose": False}
+    if "cfg" not in p:
+        return opts, "ordinary" if p["pre"] else "none", ()
+    i, wk, r = p["cfg"]
+    solver, form, amg = W1_SOLVERS[i]
+    if solver != "default":
+        opts["linear_solver"] = solver
+        opts["formulation"] = form
+    if W1_AMG[amg] is not None:  # a fresh nested dictionary (with its nested tuples / dicts) per case
+        opts["amg_options"] = {k: ((v[0], dict(v[1])) if isinstance(v, tuple) else v)
+                               for k, v in W1_AMG[amg].items()}
+    if p["lso"]:
+        opts["linear_solver_options"] = {"atol": 1e-8, "rtol": 1e-8, "maxiter": 50}
+    if W1_REG[r] is not None:
+        opts["regularization"] = W1_REG[r]
+    if p["extra"] == 1:
+        opts.update({"L": 1.0, "lumping": True, "tol_residual": 1e-6})
+    elif p["extra"] == 2:
+        opts.update({"aa_depth": 2, "aa_restart": 2, "return_status": True})
+    labs = (f"solver:{solver}", f"solver:{solver}," + ("user-amg-options" if W1_AMG[amg] is not None
+                                                     else "default-amg-options"),
+            f"formulation:{form}")
+    if solver in ("amg", "cg") and W1_AMG[amg] is not None:
+        labs += ("amg-solver+user-amg-options",)
+    return opts, wk, labs
+
+
 def _w1(method):
     def build(p):
         a, b = _mass_pair(p)
         owned = {"mass_1": a, "mass_2": b}
         kw = {}
+        tol = REJ_CV
+        labs = ()
         if method != "cv2.emd":
-            opts = {"num_iter": 2, "verbose": False}
+            opts, wk, labs = _w1_options(p)
             kw["options"] = opts
             owned["options"] = opts
-            if p["pre"]:
-                wsp = dict(p["a"], series=False, nt=0, time="none", pseed=p["a"]["pseed"] + 9)
-                w = mk(wsp, positive=True)
+            labs += (f"weight:{wk}",)
+            if wk != "none":
+                w = _w1_weight(p, wk)
                 kw["weight"] = w
                 owned["weight"] = w
+                reg = opts.get("regularization", float(np.finfo(float).eps))
+                if float(w.img.min()) < reg:
+                    labs += ("weight-below-regularization",)
+                if wk in ("zero", "tiny"):
+                    # vanishing weights can make the linear system (numerically) singular, which the sparse
+                    # direct solver rejects with a RuntimeError ("Factor is exactly singular"); the
+                    # arguments must be intact all the same
+                    tol = REJ_CV + (RuntimeError,)
         # the variational solvers cost ~0.15 s per call and their call-to-call state is the subject of
         # C16: only the cv2 form is issued twice
-        return Call(owned, lambda: darsia.wasserstein_distance(a, b, method, **kw), REJ_CV,
+        if method != "cv2.emd" and p.get("api") == "class":
+            # the solver classes behind the function: grid, weight and options handed to the constructor
+            cls = {"newton": darsia.WassersteinDistanceNewton, "bregman": darsia.WassersteinDistanceBregman}[method]
+            grid = darsia.generate_grid(a)
+            owned["grid"] = grid
+            return Call(owned, lambda w1: w1(a, b), tol, labels=labs + ("api:class",), repeat=False,
+                        setup=lambda: cls(grid, kw.get("weight"), opts))
+        return Call(owned, lambda: darsia.wasserstein_distance(a, b, method, **kw), tol,
+                    labels=labs + (("api:function",) if method != "cv2.emd" else ()),
                     repeat=method == "cv2.emd")
     return build
 
 
 F("wasserstein_distance(cv2.emd)", "measures", G_EMD, _w1("cv2.emd"))
 G_W1 = fd(a=_specs(dims=(2,), dtypes=("float64",), payloads=("scalar",), series=(False,), min_extent=2,
-                   max_extent={2: 5}, vox_kinds=("pow2", "unit")), pre=st.booleans(), flip=st.integers(0, 2))
-F("wasserstein_distance(bregman)", "measures", G_W1, _w1("bregman"), weight=1)
-F("wasserstein_distance(newton)", "measures", G_W1, _w1("newton"), weight=1)
+                   max_extent={2: 5}, vox_kinds=("pow2", "unit")), flip=st.integers(0, 2),
+          cfg=st.sampled_from(W1_CFG), lso=st.booleans(), extra=st.sampled_from([0, 0, 1, 2]),
+          api=st.sampled_from(["function", "function", "class"]))
+F("wasserstein_distance(bregman)", "measures", G_W1, _w1("bregman"), weight=2)
+F("wasserstein_distance(newton)", "measures", G_W1, _w1("newton"), weight=2)
 
 GROUPS = ["arithmetic", "conversion", "extraction", "constructors", "composition", "resize", "models",
           "measures"]
@@ -1870,7 +1973,11 @@ _RULE = ("registry: one case = (call form, Hypothesis-drawn operands of every im
          "neutral parameters (same shape, factor 1, 0 levels, one-image list) are drawn explicitly (views are "
          "admitted only for extraction / wrapping forms; affine signal models are drawn with their neutral / "
          "default parameters (scaling 1, offset 0) as often as with general ones and configured through the "
-         "constructor, update() and update_model_parameters()), then the result is mutated through append / "
+         "constructor, update() and update_model_parameters(); lists handed to stack hold images of mixed "
+         "dtypes; the variational Wasserstein distances are called through the function and through the "
+         "solver classes with every documented linear solver / formulation, nested caller-owned "
+         "'amg_options' / 'linear_solver_options' dictionaries, a user-defined regularization and weight "
+         "images from ordinary to vanishing entries), then the result is mutated through append / "
          "update_metadata / reset_origin / set_time and the arguments re-checked; non-trivial = the call "
          "returned (calls the code rejects are counted 'rejected'); chains: non-trivial = at least two "
          "executed calls; arithmetic: non-trivial = mixed dtypes, series / vector payload or a non-float "
@@ -1890,8 +1997,10 @@ def _reg_subs():
          "models": (4000, 60000), "measures": (1800, 27000)}
     # the second (repeated) call costs ~15 % CPU overall, most of it in conversion and measures: one more
     # shard each keeps the wall time of the quick tier where it was
+    # (measures: a fourth shard since the variational Wasserstein forms are drawn over their whole
+    # configuration - linear solvers, AMG options, weights - at twice the former weight)
     sh = {"arithmetic": 2, "conversion": 4, "extraction": 1, "constructors": 1, "composition": 1,
-          "resize": 1, "models": 3, "measures": 3}
+          "resize": 1, "models": 3, "measures": 4}
     out = []
     for g in GROUPS:
         out.append(Sub(f"registry_{g}", check_registry, gen=group_gen(g),
